@@ -108,6 +108,7 @@ void *vf_mmap(void *addr, size_t len, int prot, int flags, int fd, off_t off)
 	size_t done = 0;
 	while (done < len) {
 		ssize_t r = pread(fd, p + done, len - done, off + done);
+		if (r < 0 && done == 0) { free(p); errno = ENODEV; return MAP_FAILED; }   /* a directory, a write-only descriptor: mmap fails too */
 		if (r <= 0) break;
 		done += r;
 	}
